@@ -18,7 +18,7 @@ hdr = "| seeded change | check | what it changes | group(s) run | result (quick 
 p = os.path.join(VERIF, "DESIGN.md")
 s = open(p).read()
 a = s.index("## 14. Seeded changes")
-intro_end = s.index("Every change is caught", a)
+intro_end = s.index("First round (", a) if "First round (" in s[a:] else s.index("Every change is caught", a)
 miss1 = s[s.index("Misses on the way, and what was strengthened", a):]
 if "### Second round" in miss1:
     miss1 = miss1[:miss1.index("### Second round")]
